@@ -158,7 +158,10 @@ func implLine(o *obs, resolve string) map[string]string {
 // own stable key; everything else is a violation under the oracle's key.
 func (r *runner) report(known bool, shapeKey, key, what string, sc any) {
 	if known {
-		r.e.Rep.Known(shapeKey, what, sc)
+		// the known finding is registered for C29; under the other profiles it is only counted
+		if r.prop == "C29" {
+			r.e.Rep.Known(shapeKey, what, sc)
+		}
 		r.e.Rep.Hit("known:" + shapeKey)
 		return
 	}
@@ -599,13 +602,15 @@ func main() {
 	}
 	// the witness of known finding merge-reorder-rawbytes (reported as Known while it reproduces);
 	// the replays of the repaired defect §11(f) live in corpus/C29 and ran above
-	runOne(defectB())
-	if len(e.CorpusCases()) == 0 {
+	if *profile == "c29" {
+		runOne(defectB())
+	}
+	if len(e.CorpusCases()) == 0 && *profile == "c29" {
 		runOne(defectF())
 		runOne(defectFSilent())
 	}
 
-	n := e.N(60, 1500)
+	n := e.N(45, 1500)
 	opts := rmkit.GenOpts{SchemaChange: 5}
 	if *profile == "c43" {
 		opts.SchemaChange = 2
